@@ -12,6 +12,15 @@ from specs import entrypoints as EP
 _PCACHE = {}
 
 
+def param_class_or_none(pty: Ty):
+    """the parameter class, or None when the real ParameterSection.match refuses the type (reported once by list_failures as
+    list_entrypoints::safety.no_exception; the value / call clauses are then skipped instead of crashing the checker)"""
+    try:
+        return param_class(pty)
+    except Exception:   # noqa
+        return None
+
+
 def param_class(pty: Ty):
     c = _PCACHE.get(pty)
     if c is None:
@@ -51,7 +60,9 @@ def list_failures(pty: Ty):
 def value_failures(pty: Ty, w, only=None):
     """full parameter value w:  to_parameters(mode) is a Tezos call (e, m) that denotes w;
     from_parameters(to_parameters(v)) denotes w."""
-    P = param_class(pty)
+    P = param_class_or_none(pty)
+    if P is None:
+        return None
     try:
         v = P.from_micheline_value(G.neutral(pty, w))
         if not same_value(pty, v.item, w)[0]:
@@ -94,7 +105,9 @@ def call_failures(pty: Ty, ename: str, path: str, a, only=None):
        from_parameters(e, a) denotes wrap(path, a);
        to_parameters of it is a call denoting the same full value;
        and it is exactly (e, a) when e is the deepest entrypoint on the value's path (canonical pair)."""
-    P = param_class(pty)
+    P = param_class_or_none(pty)
+    if P is None:
+        return []
     ety = node_at(pty, path).anon()
     want = full_value(path, a)
     n = G.neutral(ety, a)
